@@ -29,15 +29,15 @@ theorem margLoop_closed (n : ℕ) (val : ℕ → α) :
     rw [margLoop]
     rcases Nat.eq_zero_or_pos f with hf | hf
     · subst hf
-      simp only [margLoop, margBody, hpr, rowClosed]
+      simp only [margLoop, margBody_eq_ref, margBodyRef, hpr, rowClosed]
       rfl
     · have hs : (margBody n val s (f + 1 + 1)).pr
           = closedList n (f + 1 + 1 - 1) 2 (n - (f + 1 + 1 - 1)) := by
-        simp only [margBody, if_pos (show 2 < f + 1 + 1 by omega), hpr]
+        simp only [margBody_eq_ref, margBodyRef, if_pos (show 2 < f + 1 + 1 by omega), hpr]
         rw [margStep_closed n (f + 1 + 1) (by omega) hkn]
         congr 1; omega
       rw [ih (f + 1 + 1 - 1) _ (by omega) (by omega) hs]
-      simp only [margBody, hpr]
+      simp only [margBody_eq_ref, margBodyRef, hpr]
       rw [List.range'_concat]
       simp only [List.map_append, List.map_cons, List.map_nil, List.append_assoc, List.cons_append,
         List.nil_append, rowClosed, Nat.one_mul]
